@@ -490,6 +490,30 @@ func (ne *nitroEnv) finalStages() {
 	if snaps := ne.db.GetSnapshots(); len(snaps) != 0 {
 		env.Violate("C08", "snapshot-not-retired", "GetSnapshots() lists %d snapshots after every handle was closed", len(snaps))
 	}
+	if !ne.overlap && len(ne.writers) > 0 {
+		// final audit of the set semantics after everything was closed and collected:
+		// every key is found iff the reference set holds it, and one more snapshot has
+		// the reference content and count
+		ok := true
+		s.Go("audit", func() {
+			w := ne.writers[0]
+			for k := 0; k < ne.nkeys; k++ {
+				s.Yield(SiteHarnessOp)
+				found := w.GetNode(ne.probeItem(k)) != nil
+				if want := ne.model.Lookup(k) != nil; found != want {
+					env.Violate("C02", "lookup-result", "final audit: GetNode(k%d) found=%v, reference set says %v", k, found, want)
+					ok = false
+				}
+			}
+			if rec := ne.newSnapshot("final audit"); rec != nil {
+				ne.closeOwner(rec)
+			}
+		})
+		if !env.Finish(s.Run(), "C06") || !ok {
+			return
+		}
+		env.Probe("final_audits")
+	}
 	// ItemsCount was brought up to date by the last NewSnapshot (nothing was written
 	// since): it must be the number of live items linked in the store
 	{
